@@ -150,7 +150,11 @@ func runMain(args []string) int {
 				if in.Solvers != "" {
 					sv = in.Solvers
 				}
-				r := l.runInstance(in, strings.Split(sv, ","), qt)
+				iqt := qt
+				if in.QueryTimeoutMs > iqt {
+					iqt = in.QueryTimeoutMs
+				}
+				r := l.runInstance(in, strings.Split(sv, ","), iqt)
 				o := judge(*prop, in, r, rp, kfs)
 				mu.Lock()
 				outs[i] = o
